@@ -330,7 +330,11 @@ RULES.append(("C18.g", "branch-commit: between the decision to perform an effect
 
 
 def rule_deps(ctx):
-    from . import c01, c08
+    from . import c01, c08, c11
+    # the actions of the new time are already spawned when synchronize runs: only the terminated flag (set on the OutOfSync path,
+    # tested by every entry point) keeps them from running at a later call (C11.a/b)
+    c11.rule_a(ctx)
+    c11.rule_b(ctx)
     c01.rule_g(ctx)
     c01.rule_i(ctx)
     c08.rule_a(ctx)
